@@ -2,7 +2,7 @@
 from . import gwcheck, gwfocus
 
 PID = "C08"
-PROJ = ["out", "jobs", "trans", "exc"]
+PROJ = ["out", "jobs", "trans", "exc", "cb"]
 PROPS = ["BurstShape", "ConfirmedNeverResent", "QuietWhileAsleep"]
 INVS = ["AcceptedImpliesDeliverable", "HeldAndQueuedValid", "Disciplines"]
 VERS = ["2.0", "2.1", "2.2"]
